@@ -140,9 +140,13 @@ PROPS = {
                        "accumulated error is set exactly when the kernel's local rule fires at byte i, looking back three bytes across the "
                        "block boundary) and validate_utf8_avx2(input) == well_formed(input), via a machine-checked theorem that the local "
                        "rule fires nowhere in the zero-padded stream exactly when the string is well formed. Both SIMD wrappers return Ok "
-                       "when their acceptor says yes and otherwise the scalar result, so all engines agree. Kani proves completely: "
-                       "encode_code_point/decode_code_point round-trip for every u32 and every 4-byte window, line_and_column's SWAR newline "
-                       "counter against the naive count, first_high_byte for all 2^64 masks, the vector lane model on the real intrinsics. "
+                       "when their acceptor says yes and otherwise the scalar result, so all engines agree. "
+                       "The line/column clause is proved without bound by Verus (unit c13_linecol): line_and_column(input, offset) == (1 + LF "
+                       "bytes before the offset, bytes since the last LF + 1) through the SWAR word loop (zero-byte test proved per lane by "
+                       "bit-vector reasoning; popcount-of-lane-tops and top-bit facts are trusted lemmas cross-checked by Kani for all 2^64 "
+                       "words) and the scalar tail. Kani proves completely: encode_code_point round-trip for every u32, first_high_byte for "
+                       "all 2^64 masks, the trusted word lemmas, the vector lane model on the real intrinsics; and, bounded, decode on every "
+                       "4-byte window and line_and_column on every 19-byte buffer (replayable companions). "
                        "The offset convention of the scalar validator differs from the property's wording for one class of inputs: recorded finding F6.",
         "trusted_base": COMMON_TRUST + [MODELS + "_mm256_max_epu8, _mm256_testz_si256", "Verus 0.2026.09.13 + Z3; intrinsic lane model verus/speclib_simd.rs",
                                         "seam R4: skip_ascii / err_at / load_word / load_block / padded_block stubs (Kani-checked or documented contracts, see units c13_scalar, c13_broadword, c13_avx2)"],
